@@ -20,6 +20,8 @@ META = {
 
 
 def run(prog, report, tier):
+    from .. import curverules as _cr
+    _cr.check_closed_flag(prog, report)
     meshrules.check_exact_mesh(prog, report)
     meshrules.check_pairing(prog, report)
     meshrules.check_cross(prog, report)
